@@ -37,6 +37,9 @@ FIELDS = [
     ("gfa2", ["S\ta\t4\t*", "S\tb\t4\t*"], "G\tg\ta+\tb+\t1\t*", "disp", None, [2, "-3"], ["x", "1_0", 1.5]),
     ("gfa2", ["S\ta\t4\t*", "S\tb\t4\t*"], "G\tg\ta+\tb+\t1\t*", "var", None, ["*", 3], ["x", "1.5"]),
     ("gfa2", ["S\ta\t4\t*"], "F\ta\tx+\t0\t1\t0\t1\t*", "xx", "H", ["1A"], ["1a", "1AF", 5, "G0"]),
+    # empty intervals (begin == end) are valid positions
+    ("gfa2", ["S\ta\t4\t*"], "F\ta\tx+\t0\t1\t0\t1\t*", "s_end", None, [0, 2, "4$"], [-1, "x", "$", 1.5]),
+    ("gfa2", ["S\ta\t4\t*"], "F\ta\tx+\t0\t1\t0\t1\t*", "f_beg", None, [1, 0], [-1, "x", 1.5]),
     ("gfa2", ["S\ta\t4\t*", "S\tb\t4\t*"], "O\to\ta+ b+", "xx", "f", [1.5, "1.5", "-2"], ["1.", "inf", "x", [1.5], NAN]),
     ("gfa2", ["S\ta\t4\t*"], "U\tu\ta", "xx", "A", ["x"], ["xy", "", 5, " "]),
     ("gfa2", [], "X\tf1\tf2", "xx", "i", [1], ["x", 1.5]),
